@@ -61,8 +61,9 @@ func replayDetImpl(c *Ctx, raw json.RawMessage) bool {
 func replayTies(c *Ctx, raw json.RawMessage) bool {
 	var rp struct {
 		Input struct {
-			Case cases.ScanCase `json:"case"`
-			Args []string       `json:"args"`
+			Case      cases.ScanCase `json:"case"`
+			Args      []string       `json:"args"`
+			Gitconfig string         `json:"gitconfig"`
 		} `json:"input"`
 	}
 	json.Unmarshal(raw, &rp)
@@ -73,8 +74,12 @@ func replayTies(c *Ctx, raw json.RawMessage) bool {
 	}
 	repoDir := filepath.Join(scratch, "r")
 	sc := rp.Input.Case
-	if _, err := materialiseCase(repoDir, &sc); err != nil {
+	rr, err := materialiseCase(repoDir, &sc)
+	if err != nil {
 		Infra("replay: %v", err)
+	}
+	if rp.Input.Gitconfig != "" {
+		appendFile(filepath.Join(rr.GitDir, "config"), rp.Input.Gitconfig)
 	}
 	first := ""
 	for rep := 0; rep < 40; rep++ {
